@@ -197,6 +197,9 @@ impl Slot {
         let stat_node = ctx.stat_node();
         let input = ctx.input();
         let tcs = get_traffic_controller_list_for(res);
+        // Do not hold the caller for a request that a later rule rejects anyway:
+        // remember the queueing time and sleep once, after all the rules have been checked.
+        let mut nanos_to_sleep = 0;
         for tc in it: tcs 
         invariant
             held(tr@),
@@ -216,9 +219,12 @@ impl Slot {
                     return ctx.result().clone();
                 }
                 TokenResult::Wait(nanos_to_wait) => {
-                    sleep_for_ns(Tracked(tr), nanos_to_wait);
+                    nanos_to_sleep = nanos_to_wait;
                 }
             }
+        }
+        if nanos_to_sleep > 0 {
+            sleep_for_ns(Tracked(tr), nanos_to_sleep);
         }
         return ctx.result().clone();
     }
